@@ -1,5 +1,5 @@
 """C10 — the multiscale metric is finite SPD (planar embedding in 2-D) and meets the requested complexity."""
-from . import streams_metric, streams_gradation, streams_reconpar, cli
+from . import streams_metric, streams_gradation, streams_reconpar, streams_metricpipe, cli
 from .common import Stream
 
 ID = 'C10'
@@ -16,7 +16,8 @@ MULTISCALE_MPI = Stream('cli_multiscale_mpi', cli.cli_harness, None, _gen_multis
                         kind='oracle', np=[2, 3], nontrivial=lambda op, out: out.startswith('rc=0'), timeout=900)
 
 STREAMS = [streams_metric.COMPLEXITY, streams_metric.EIG, streams_metric.GAC, streams_gradation.SWEEP, streams_gradation.GAC,
-           streams_gradation.LP, cli.MULTISCALE, MULTISCALE_MPI, streams_reconpar.ROUNDOFF]
+           streams_gradation.LP, cli.MULTISCALE, MULTISCALE_MPI, streams_reconpar.ROUNDOFF,
+           streams_metricpipe.STAGES, streams_metricpipe.ARGV, streams_metricpipe.CLI_OPTS]
 
 EXPLANATION = (
     'Proved in Lean over the reals, about the executable model Refine/Model/Metric.lean (a statement-by-statement '
